@@ -177,7 +177,16 @@ pub fn build(choices: &[u32], o: Opts) -> Program {
         }
       }
       16 => { let name = fresh(&mut n); let a = s.pick(5); p.lines.push(format!("{} := {{{}, {}, {}}}", name, a + 1, a + 2, a + 1)); p.core = false; feat(&mut p, "set"); env.push(Var { name, ty: Ty::Set, mutable: false }); }
-      17 => { let name = fresh(&mut n); let a = s.pick(5); p.lines.push(format!("{} := | x<f64> y<f64> | {} {} | {} {} |", name, a, a + 1, a + 2, a + 3)); p.core = false; feat(&mut p, "table"); env.push(Var { name, ty: Ty::Table, mutable: false }); }
+      17 => { // table literal: 1-4 columns of mixed kinds x 1-4 rows (one choice decides everything, so older case files stay aligned)
+        let name = fresh(&mut n); let w = s.next() as usize; let a = w % 5;
+        let (ncols, nrows) = (1 + (w / 5) % 4, 1 + (w / 20) % 4);
+        let kinds: Vec<usize> = (0..ncols).map(|c| if (w / 80) % 3 == 0 { 0 } else { (w / 240 + c * 7 + c * c) % 4 }).collect();
+        let header: Vec<String> = (0..ncols).map(|c| format!("{}<{}>", ["x", "y", "z", "w"][c], ["f64", "u8", "bool", "string"][kinds[c]])).collect();
+        let rows: Vec<String> = (0..nrows).map(|r| (0..ncols).map(|c| { let v = a + r * ncols + c; match kinds[c] { 0 => format!("{}", v), 1 => format!("{}", v % 200), 2 => format!("{}", v % 2 == 0), _ => format!("\"s{}\"", v) } }).collect::<Vec<_>>().join(" ")).collect();
+        p.lines.push(format!("{} := | {} | {} |", name, header.join(" "), rows.join(" | ")));
+        p.core = false; feat(&mut p, "table"); if ncols != nrows { feat(&mut p, "table-non-square"); }
+        env.push(Var { name, ty: Ty::Table, mutable: false });
+      }
       18 => { let name = fresh(&mut n); let a = s.pick(5); p.lines.push(format!("{} := ({}, \"t\")", name, a)); p.core = false; feat(&mut p, "tuple"); env.push(Var { name, ty: Ty::Tuple, mutable: false }); }
       19 => { let name = fresh(&mut n); let a = s.pick(5); p.lines.push(format!("{} := {{x: {}, y: \"r\"}}", name, a)); p.core = false; feat(&mut p, "record"); env.push(Var { name, ty: Ty::Record, mutable: false }); }
       20 => { // user function definition + call
